@@ -287,7 +287,7 @@ func drawConc(r *vlib.Run, rng *rand.Rand) concParams {
 }
 
 func concurrent(r *vlib.Run) {
-	n := r.N(2000, 40000)
+	n := r.N(5000, 40000)
 	if r.Race {
 		n /= 10
 	}
